@@ -60,8 +60,25 @@ pub fn sql_shape(sql: &str) -> (usize, bool, bool, bool) {
     )
 }
 
+pub struct Details {
+    pub src: String,
+    pub sql: String,
+    pub reference: crate::model::eval::Rel,
+    pub res: exec::SqlResult,
+}
+
 /// Evaluate the differential oracle on one case.
 pub fn check(case: &Case, known: &Known) -> Outcome {
+    judge(case, known).0
+}
+
+pub fn judge(case: &Case, known: &Known) -> (Outcome, Option<Details>) {
+    let mut det: Option<Details> = None;
+    let out = judge_inner(case, known, &mut det);
+    (out, det)
+}
+
+fn judge_inner(case: &Case, known: &Known, det: &mut Option<Details>) -> Outcome {
     let src = print::program(&case.prog);
     let dialect = util::dialect_by_name(&case.target);
     let sql = match util::compile(&src, dialect) {
@@ -92,7 +109,7 @@ pub fn check(case: &Case, known: &Known) -> Outcome {
         Err(exec::SqlErr::Setup(m)) => return Outcome::skip(&format!("setup: {m}")),
         Err(e) => {
             let m = e.msg().to_string();
-            if m.contains("Expression tree is too large") || m.contains("too many terms") || m.contains("parser stack overflow") {
+            if m.contains("ON clause references tables to its right") || m.contains("Expression tree is too large") || m.contains("too many terms") || m.contains("parser stack overflow") {
                 return Outcome::skip("engine_limit").class("engine_limit");
             }
             let binder = m.contains("no such column") || m.contains("no such table") || m.contains("ambiguous column") || m.contains("same number of result columns");
@@ -133,7 +150,15 @@ pub fn check(case: &Case, known: &Known) -> Outcome {
     // the names identify the columns uniquely, by position otherwise.
     let rows_aligned = align_by_name(&case.names, &res.cols, &res.rows);
     let got_rows = rows_aligned.as_ref().unwrap_or(&res.rows);
-    match compare(&reference, res.cols.len(), got_rows) {
+    let cmp = compare(&reference, res.cols.len(), got_rows);
+    let ok = cmp.is_ok();
+    let detail_vals = if ok { None } else { Some((reference.rows.iter().map(|r| r.vals.iter().map(|v| v.show()).collect::<Vec<_>>()).collect::<Vec<_>>(), reference.ordered(), res.cols.clone(), res.rows.iter().map(|r| r.iter().map(|v| v.show()).collect::<Vec<_>>()).collect::<Vec<_>>())) };
+    if ok {
+        *det = Some(Details { src: src.clone(), sql: sql.clone(), reference, res });
+        return out;
+    }
+    let (exp_rows, exp_ordered, got_cols, got_rows_s) = detail_vals.unwrap();
+    match cmp {
         Ok(()) => out,
         Err(m) => {
             let what = match &m {
@@ -155,10 +180,10 @@ pub fn check(case: &Case, known: &Known) -> Outcome {
                 "sql": sql,
                 "target": case.target,
                 "mismatch": format!("{m:?}"),
-                "expected_rows": reference.rows.iter().map(|r| r.vals.iter().map(|v| v.show()).collect::<Vec<_>>()).collect::<Vec<_>>(),
-                "expected_ordered": reference.ordered(),
-                "got_columns": res.cols,
-                "got_rows": res.rows.iter().map(|r| r.iter().map(|v| v.show()).collect::<Vec<_>>()).collect::<Vec<_>>(),
+                "expected_rows": exp_rows,
+                "expected_ordered": exp_ordered,
+                "got_columns": got_cols,
+                "got_rows": got_rows_s,
             });
             out.verdict = Verdict::Fail(what.to_string(), detail);
             out
@@ -238,7 +263,7 @@ pub fn run(ctx: &Ctx) -> i32 {
     let cfg = GenCfg::general();
     ctx.tape_search(
         "general",
-        ctx.n(12_000, 800_000),
+        ctx.n(40_000, 1_500_000),
         400,
         |t| gen_case(t, cfg.clone()),
         |c| check(c, &ctx.known),
@@ -248,7 +273,7 @@ pub fn run(ctx: &Ctx) -> i32 {
     cfg2.max_steps = 9;
     ctx.tape_search(
         "long",
-        ctx.n(4_000, 300_000),
+        ctx.n(12_000, 500_000),
         600,
         |t| gen_case(t, cfg2.clone()),
         |c| check(c, &ctx.known),
@@ -288,6 +313,9 @@ pub const HAZARD_FINDINGS: &[(&str, &[&str])] = &[
     ("win_over_win", &["C07-window-over-window-sort-scope"]),
     ("mul_right", &["C02-mul-right-operand-parens"]),
     ("sorted_group_derive", &["C03-take-before-group-loses-sort"]),
+    ("wild_let", &["C07-wildcard-let-derive-name"]),
+    ("const_fold", &["C05-same-column-merged", "C02-const-null-fold"]),
+    ("dropped_key_join", &["C03-dropped-sort-key-join"]),
     ("sort_key_rename", &["C12-sort-key-rename-panic", "C07-sort-key-rename-scope"]),
 ];
 
@@ -307,6 +335,7 @@ pub fn attribute(flags: &[String], known: &Known) -> Option<(String, String)> {
 
 pub fn check_hazard(case: &Case, known: &Known) -> Outcome {
     let mut out = check(case, known);
+    out.nontrivial = false; // hazard sweeps re-exercise findings; they do not count as coverage
     if let Verdict::Fail(..) = &out.verdict {
         if let Some((id, what)) = attribute(&case.flags, known) {
             out.verdict = Verdict::Known(id, what);
